@@ -11,7 +11,9 @@ use serde_json::{Value, json};
 
 /// import paths: standard library, nested, last segment that is not an identifier, version suffix,
 /// a last segment shared with another path, a last segment spelled like the runtime's own import
-const PATHS: [&str; 11] = ["time", "strings", "math/rand", "crypto/rand", "gopkg.in/yaml.v3", "github.com/a-b/c-d", "example.com/x/v2", "example.com/own/fmt", "x/a/b", "x_a/b", "lib/go"];
+const PATHS: [&str; 15] = ["time", "strings", "math/rand", "crypto/rand", "gopkg.in/yaml.v3", "github.com/a-b/c-d", "example.com/x/v2", "example.com/own/fmt", "x/a/b", "x_a/b", "lib/go",
+    // a last segment spelled like one of the compiler's temporaries
+    "example.com/t1", "example.com/t2", "example.com/t3", "example.com/ret4"];
 
 /// what the program declares for the package and how it uses it
 const USES: [&str; 14] = [
@@ -100,7 +102,7 @@ impl Family for Externs {
         &["C02", "C04"]
     }
     fn rule(&self) -> &'static str {
-        "extern declarations: 11 import paths (standard library, nested, a last segment that is not an identifier, a version suffix, two paths with one last segment, a last segment spelled like the runtime's own import, two paths that differ in '/' against '_', a last segment that is a Go keyword) taken one at a time and in all pairs x 11 usages x 2 placements of the declarations (the main package; a library package that main imports) (function called / called in a closure / called and discarded / called only from an unused function / never called; type with constructor and consumer called / type declared only / type used in a signature only; a function declared '-> unit' called as a statement / with its result bound / as the result of a goml function: Go functions without a result can only be statements); oracle: the emitted Go passes the static checker with foreign members opaque (every package the text names is imported under that name, no import unused, no two imports bind one name); the programs are not executed (the Go model has no foreign packages). non-trivial = programs with two packages or a non-identifier last segment; distinct = distinct source text"
+        "extern declarations: 15 import paths (incl. last segments spelled like the compiler's temporaries; standard library, nested, a last segment that is not an identifier, a version suffix, two paths with one last segment, a last segment spelled like the runtime's own import, two paths that differ in '/' against '_', a last segment that is a Go keyword) taken one at a time and in all pairs x 11 usages x 2 placements of the declarations (the main package; a library package that main imports) (function called / called in a closure / called and discarded / called only from an unused function / never called; type with constructor and consumer called / type declared only / type used in a signature only; a function declared '-> unit' called as a statement / with its result bound / as the result of a goml function: Go functions without a result can only be statements); oracle: the emitted Go passes the static checker with foreign members opaque (every package the text names is imported under that name, no import unused, no two imports bind one name); the programs are not executed (the Go model has no foreign packages). non-trivial = programs with two packages or a non-identifier last segment; distinct = distinct source text"
     }
     fn cases(&self, _tier: Tier) -> Box<dyn Iterator<Item = Value> + '_> {
         let mut v = Vec::new();
